@@ -19,6 +19,7 @@
 import LtVerif.Proofs.CqRead
 import LtVerif.Proofs.CqLive
 import LtVerif.Proofs.CqFuel
+import LtVerif.Proofs.CqKeep
 namespace LtVerif.C17
 open LtVerif LtVerif.Cq
 
@@ -97,7 +98,8 @@ theorem c17_refines_fifo (base : Nat → Int) (s : Sys) (op : Op) (h : FInv base
     of the queue when a write fails, so bytes queued in MEM chunks of the
     destination before the call can be gone afterwards (the caller is told -1
     and gives the request up): `c17_fault_drops_queued_bytes` below is a witness.
-    The loss is always a suffix (what stays is a prefix), and it is reported. -/
+    The loss is always a suffix (what stays is a prefix), and it is reported;
+    it is confined to destinations that hold MEM chunks: `c17_fault_keeps`. -/
 theorem c17_fault_safe (base : Nat → Int) (s : Sys) (h : FInv base s) (qi : Bool) :
     (∀ d ok, (step s (.appendMemToTempfile qi d)).2 = .rc ok →
       FInv base (step s (.appendMemToTempfile qi d)).1 ∧
@@ -118,6 +120,51 @@ theorem c17_fault_safe (base : Nat → Int) (s : Sys) (h : FInv base s) (qi : Bo
   · obtain ⟨hf, hres⟩ := step_finv s (.stealWithTempfiles qi n) h trivial
     simp only [SpillRes, hrc, Transfer] at hres
     exact ⟨hf, hres⟩
+
+/-- What a failed spill keeps.  The bytes `c17_fault_safe` allows to disappear
+    are those chunkqueue_to_tempfiles() held in its private copy, and that
+    function is entered only for MEM chunks of the destination.  When the
+    destination holds no MEM chunk (the usual state of a request body queue that
+    is being spilled: temp-file chunks only) a reported error loses nothing:
+    append_mem_to_tempfile keeps every byte the queue held (plus a prefix of the
+    offered bytes), and steal_with_tempfiles has moved exactly k ≤ n bytes — the
+    source lost them, the destination holds all of them behind its old bytes. -/
+theorem c17_fault_keeps (base : Nat → Int) (s : Sys) (h : FInv base s) (qi : Bool)
+    (hn : ∀ c ∈ (s.get qi).chunks, c.isMem = false) :
+    (∀ d, (step s (.appendMemToTempfile qi d)).2 = .rc false →
+      s.abs qi <+: (step s (.appendMemToTempfile qi d)).1.abs qi) ∧
+    (∀ n, (step s (.stealWithTempfiles qi n)).2 = .rc false →
+      ∃ k, k ≤ n ∧ k ≤ (s.abs (!qi)).length ∧
+        (step s (.stealWithTempfiles qi n)).1.abs (!qi) = (s.abs (!qi)).drop k ∧
+        (step s (.stealWithTempfiles qi n)).1.abs qi = s.abs qi ++ (s.abs (!qi)).take k) := by
+  have hfs := c17_fault_safe base s h qi
+  refine ⟨fun d hrc => ?_, fun n hrc => ?_⟩
+  · obtain ⟨hf', hpre, _⟩ := hfs.1 d false hrc
+    simp only [Bool.false_eq_true, if_false] at hpre
+    refine List.prefix_of_prefix_length_le (List.prefix_append _ _) hpre ?_
+    have l0 := h.inv.length_abs qi
+    have l1 := hf'.inv.length_abs qi
+    have hk := appendMemToTempfile_keeps s.w (s.get qi) d hn
+    have hget : (step s (.appendMemToTempfile qi d)).1.get qi = (appendMemToTempfile s.w (s.get qi) d).2.1 := by
+      simp only [step]; cases qi <;> rfl
+    rw [hget] at l1
+    omega
+  · obtain ⟨hf', k, k1, k2, k3, k4⟩ := hfs.2 n false hrc
+    simp only [Bool.false_eq_true, if_false] at k4
+    refine ⟨k, k1, k2, k3, List.IsPrefix.eq_of_length k4 ?_⟩
+    have a0 := h.inv.length_abs qi
+    have b0 := h.inv.length_abs (!qi)
+    have a1 := hf'.inv.length_abs qi
+    have b1 := hf'.inv.length_abs (!qi)
+    have hk := stealWithTempfiles_keeps s.w (s.get qi) (s.get (!qi)) n hn
+    have hget : (step s (.stealWithTempfiles qi n)).1.get qi = (stealWithTempfiles s.w (s.get qi) (s.get (!qi)) n).2.1 ∧
+        (step s (.stealWithTempfiles qi n)).1.get (!qi) = (stealWithTempfiles s.w (s.get qi) (s.get (!qi)) n).2.2.1 := by
+      simp only [step]; cases qi <;> exact ⟨rfl, rfl⟩
+    rw [hget.1] at a1
+    rw [hget.2] at b1
+    rw [k3, List.length_drop] at b1
+    rw [List.length_append, List.length_take, Nat.min_eq_left k2]
+    omega
 
 /-- Retryable write results never surface as an error: when every scripted
     result of the temp-file writes is ok, a short write (of any length), EINTR
